@@ -2,7 +2,7 @@
 FUNCS = ["Token.aio_notify", "CounterToken.on_deleted", "Scheduler.aio_start", "ProcessCounterToken.release", "CounterToken.release", "TokenFile.delete", "CounterTokenLock._release",
          "Lock.release", "Lock.__exit__", "Locks._release", "TokenFile.watch.run"]
 LEVEL = "proof"
-LEVEL_TEXT = 'Deductive: release removes exactly the holding and restores the sum; Lock.release/__exit__ call _release once; Locks._release releases every appended lock; aio_start appends every acquired lock to the group (invariant: group size = number of dependencies locked so far) and executes Locks.__exit__ once after the last acquisition on every outcome; the watcher of a foreign holding deletes the token file on every path (no pid file, stale pid file, live process waited for).'
+LEVEL_TEXT = 'Deductive: release removes exactly the holding and restores the sum; Lock.release/__exit__ call _release once; Locks._release releases every appended lock; aio_start appends every acquired lock to the group (invariant: group size = number of dependencies locked so far) and executes Locks.__exit__ once after the last acquisition on every outcome; a token file that disappears gives its units back to this scheduler and is forgotten (on_deleted); aio_notify schedules a re-check of every waiting dependency; the watcher of a foreign holding deletes the token file on every path (no pid file, stale pid file, live process waited for).'
 TRUSTED = ["'a waiting job is eventually launched' and holdings of a killed scheduler are liveness / OS matters", 'z3 5.1 / cvc5 1.0.3 / z3 4.8.12 and the VC generator pyvc (validated by seeded changes, pre-fix replays and the CPython replay of counterexamples; not verified)', 'Python semantics of DESIGN 2.3 (mathematical ints and reals, left-to-right evaluation, no monkey-patching, assert not compiled out)', 'heap typing: declared field/parameter classes are assumed on reads and checked on writes in the functions under contract', "contracts of externals and of callees outside the list are assumed; every ('ASSUME', ...) clause is listed in DESIGN section 11"]
 LEVEL_NOTE = "'a waiting job is eventually launched' and holdings of a killed scheduler are liveness / OS matters"
 
